@@ -707,6 +707,30 @@ func tieBreakRejections(r *vlib.Run, cfg node.Config, path []int, n *node.Node) 
 	sh := node.MenuShape(1, tip.Height, 7)
 	sh.SkipSlots = cfg.CurrentSlot - parentSlot - 1
 	comp, err := aux.Forge(sh)
+	if err == nil && bytes.Equal(comp.Header.GeneratorAddress, tip.GeneratorAddress) && comp.Header.MaxHeightPrevoted == tip.MaxHeightPrevoted {
+		// the current slot belongs to the tip's own generator: a second block of that generator at the tip's height is
+		// double forging and is discarded, even though its timing would win a tie break
+		late := time.Unix(int64(tip.Timestamp)+int64(3*cfg.BlockTime), 0)
+		n.Exec.VerifSetLastBlockReceived(&late)
+		n.DrainEvents()
+		s0 := take(n)
+		c := caseT{path, -1, "double-forging-with-tie-break-timing", true}
+		var perr error
+		if p := vlib.Catch(func() { perr = n.Exec.VerifProcess(node.CloneBlockLoose(comp), "peer-1") }); p != "" {
+			r.Violation("panic:double-forging-competitor", "panic while processing a double-forged competitor: "+p, c)
+			return true
+		}
+		r.Add("transitions", 1)
+		r.Add("double_forged_competitors_discarded", 1)
+		s1 := take(n)
+		ev := n.DrainEvents()
+		n.Exec.VerifSetLastBlockReceived(nil)
+		if s1 != s0 || len(ev) > 0 {
+			r.Violation("double-forged-block-not-discarded", fmt.Sprintf("a second block of the tip's generator at the tip's height (later slot, received in time, tip received late, err=%v) on path %v was not discarded: tip changed=%v events %v", perr, path, s1.tip != s0.tip, ev), c)
+			return true
+		}
+		return false
+	}
 	if err != nil || bytes.Equal(comp.Header.GeneratorAddress, tip.GeneratorAddress) || comp.Header.MaxHeightPrevoted != tip.MaxHeightPrevoted {
 		r.Add("tie_break_competitor_not_constructible", 1)
 		return false
